@@ -8,6 +8,13 @@ import (
 )
 
 func impl(in hv.Val) hv.Val {
+	if l, isList := in.(hv.L); isList { // [2 vers clen full]: halfConn.decrypt on a CBC record with a valid MAC
+		vers := uint16(hv.AsInt(l[1]))
+		clen := int(hv.AsInt(l[2]))
+		full := hv.AsBytes(l[3])
+		_, ok, _ := bfe_tls.VerifC43Record(vers, full[:clen], full[clen+20:])
+		return hv.Bool(ok)
+	}
 	p := append([]byte(nil), hv.AsBytes(in)...)
 	out, good := bfe_tls.VerifRemovePadding(p)
 	return hv.L{hv.B(out), hv.I(int(good))}
@@ -23,6 +30,9 @@ func gen(r *hv.Rng, i int, tier string) (string, hv.Val) {
 	case i < 257+65536:
 		k := i - 257
 		return "len2", hv.B{byte(k >> 8), byte(k)}
+	}
+	if i%4 == 1 {
+		return genRecord(r)
 	}
 	// structured: length 1..400, padding byte p, valid padding with 0/1/2 corrupted positions
 	n := r.Range(1, 400)
@@ -71,6 +81,55 @@ func gen(r *hv.Rng, i int, tier string) (string, hv.Val) {
 		class += "-p255"
 	}
 	return class, hv.B(b)
+}
+
+// a CBC record with a valid MAC and chosen padding bytes, run through the real halfConn.decrypt
+func genRecord(r *hv.Rng) (string, hv.Val) {
+	versions := []uint16{0x0300, 0x0301, 0x0302, 0x0303}
+	vers := versions[r.Intn(4)]
+	clen := r.Intn(70)
+	padLen := 16 - (clen+20)%16 + 16*r.Intn(4)
+	if r.Chance(1, 12) { // maximal padding: 256 bytes
+		padLen = 256 - (256-(16-(clen+20)%16))%16
+		for (clen+20+padLen)%16 != 0 {
+			padLen--
+		}
+	}
+	pad := make([]byte, padLen)
+	for j := range pad {
+		pad[j] = byte(padLen - 1)
+	}
+	class := "rec-valid"
+	switch r.Intn(6) {
+	case 0: // garbage padding contents, length byte in range
+		if padLen > 1 {
+			j := r.Intn(padLen - 1)
+			pad[j] ^= byte(1 + r.Intn(255))
+			class = "rec-garbage"
+		}
+	case 1: // every padding byte but the last is random
+		for j := 0; j < padLen-1; j++ {
+			pad[j] = byte(r.U64())
+		}
+		class = "rec-random-pad"
+	case 2: // wrong length byte (shorter / longer / huge)
+		v := []int{padLen - 2, padLen, padLen + 15, 255, 0}[r.Intn(5)]
+		if v < 0 {
+			v = 0
+		}
+		pad[padLen-1] = byte(v)
+		class = "rec-wrong-len"
+	case 3: // first padding byte (farthest from the end) corrupted
+		pad[0] ^= byte(1 << uint(r.Intn(8)))
+		class = "rec-far"
+		if padLen == 1 {
+			class = "rec-wrong-len"
+		}
+	}
+	content := r.Bytes(clen)
+	full, _, _ := bfe_tls.VerifC43Record(vers, content, pad)
+	cls := map[uint16]string{0x0300: "ssl30", 0x0301: "tls10", 0x0302: "tls11", 0x0303: "tls12"}[vers]
+	return class + "-" + cls, hv.L{hv.I(2), hv.I(int(vers)), hv.I(clen), hv.B(full)}
 }
 
 func main() {
